@@ -752,6 +752,55 @@ def oracle_instance(chk, cfg, it, cast=None, stats=True, how=None):
             shadow = now
         chk.count("oracle:history:%s:%d-rows" % (variant, 2 * length + 3))
 
+    # --- "for all innovation vectors": the row is affine in b also for vectors no short seeded run delivers (components of 6, 10,
+    # 40 standard deviations, a single huge component, the zero vector).  The innovation is injected by putting a generator in
+    # the object's place that hands out a prescribed stream; the row for b and for b' must differ by B·(b − b').
+    try:
+
+        class _Stream(numpy.random.Generator):
+            def __init__(self, vals):
+                super().__init__(numpy.random.PCG64(0))
+                self.vals, self.pos = numpy.asarray(vals, dtype=float), 0
+
+            def _take(self, size):
+                n = int(numpy.prod(size)) if size is not None else 1
+                out = numpy.zeros(n)
+                a = self.vals[self.pos:self.pos + n]
+                out[:a.size] = a
+                self.pos += n
+                return out.reshape(size) if size is not None else float(out[0])
+
+            def normal(self, loc=0.0, scale=1.0, size=None):
+                return loc + scale * self._take(size)
+
+            def standard_normal(self, size=None, dtype=numpy.float64, out=None):
+                return self._take(size)
+        keepR = obj._R
+        big = [numpy.zeros(nx), nprng.normal(size=nx) * 6.0, nprng.normal(size=nx) * 40.0,
+               numpy.eye(nx)[nprng.integers(nx)] * (-10.0), numpy.full(nx, 7.5)]
+        rows_b = []
+        for bvec in big:
+            obj._scrn = numpy.array(scrn, dtype=float, copy=True)
+            obj._R = _Stream(numpy.concatenate([bvec, numpy.zeros(4 * nx)]))
+            obj.add_row()
+            rows_b.append((numpy.array(obj._scrn[0], dtype=float, copy=True), obj._R.pos))
+        obj._R = keepR
+        if all(pos == nx for _, pos in rows_b):         # the stream bookkeeping of the model holds: one block of nx draws per row
+            base_row = rows_b[0][0]
+            for bvec, (rw, _) in zip(big[1:], rows_b[1:]):
+                errb = float(numpy.abs((rw - base_row) - B @ bvec).max())
+                scb = float((numpy.abs(B) @ numpy.abs(bvec)).max()) + float(numpy.abs(base_row).max()) + 1e-300
+                if not errb <= 1e-11 * scb:
+                    bad("affine:innovation:" + variant, "%s: with the innovation vector b injected (largest |component| %.3g) the new row is not "
+                        "row(b = 0) + B_mat·b: max |Δ| = %.3g (scale %.3g) — the row is not affine in b for all innovation vectors"
+                        % (tag, float(numpy.abs(bvec).max()), errb, scb), screen=scrn.tolist(), b=bvec.tolist())
+                    break
+            chk.count("oracle:innovation-injected:" + variant)
+        else:
+            chk.count("oracle:innovation-injected:stream-layout-differs")      # HOW b is drawn is a correspondence matter (reported above)
+    except AttributeError:
+        chk.count("oracle:innovation-injected:no-_R")
+
     # --- Fried variant: adding a constant to the whole screen adds exactly that constant to the new row
     if variant == "fried":
         for c in (float(nprng.integers(1, 200)) / 8, -float(nprng.integers(1, 2000)) / 4):
